@@ -103,10 +103,7 @@ theorem step_mono (hU : Univ U) (hT : TombClosed U) {cfg : Cfg} (hcfg : cfg.lit 
       obtain ⟨hgood, hnd⟩ := localState_good hna.1 hna.2
       apply key b
       intro nd hmem
-      have hsp := mergeRemoteState_spec hU hcfg c.clock _ hgood hnd (hinv.nodes nd hmem).1
-      intro k
-      exact Le.of_eqv_right (hsp.2 k).symm (le_merge_left hU ((hinv.nodes nd hmem).1.1.sval k).1
-        (by rw [localState_eq, valOf_localState]; exact (hna.1.1.sval k).1))
+      exact (mergeRemoteState_spec hU hcfg c.clock _ hgood hnd (hinv.nodes nd hmem).1).2.1
   | corrupt n => exact StoreLe.refl _
   | watch n p k => exact key n _ fun _ _ => StoreLe.refl _
   | watcherRun n w => exact key n _ fun _ _ => StoreLe.refl _
@@ -129,13 +126,13 @@ no other node changes -/
 theorem pushPull_spec (hU : Univ U) {cfg : Cfg} (hcfg : cfg.lit = 0) {c : Cluster Desc} (hinv : Inv U c) (a b : Nat)
     (hb : b < c.nodes.length) :
     (∀ i, i ≠ b → (stepC cfg c (.pushPull a b)).nodes[i]? = c.nodes[i]?) ∧
-    (∀ k, Eqv (nval (stepC cfg c (.pushPull a b)) b k) (mergeState (nval c b k) (nval c a k))) ∧
+    (∀ k, k ≠ "" → Eqv (nval (stepC cfg c (.pushPull a b)) b k) (mergeState (nval c b k) (nval c a k))) ∧
     (stepC cfg c (.pushPull a b)).nodes.length = c.nodes.length ∧ (stepC cfg c (.pushPull a b)).clock = c.clock := by
   cases ha : c.nodes[a]? with
   | none =>
     have : stepC cfg c (.pushPull a b) = c := by simp only [stepC, ha]
     rw [this]
-    refine ⟨fun _ _ => rfl, fun k => ?_, rfl, rfl⟩
+    refine ⟨fun _ _ => rfl, fun k _ => ?_, rfl, rfl⟩
     have hv : nval c a k = [] := by unfold nval nstore; rw [ha]; rfl
     rw [hv]
     have hd := (nval_drawn hinv b k).1
@@ -147,7 +144,7 @@ theorem pushPull_spec (hU : Univ U) {cfg : Cfg} (hcfg : cfg.lit = 0) {c : Cluste
     refine ⟨?_, ?_, ?_, rfl⟩
     · intro i hi
       simp only [Cluster.upd, modifyAt_get?, if_neg hi]
-    · intro k
+    · intro k hkne
       have hbs : ∃ nb, c.nodes[b]? = some nb := ⟨c.nodes[b], by simp [hb]⟩
       obtain ⟨nb, hnb⟩ := hbs
       have hsp := mergeRemoteState_spec hU hcfg c.clock _ hgood hnd (hinv.nodes nb (List.mem_of_getElem? hnb)).1
@@ -158,7 +155,7 @@ theorem pushPull_spec (hU : Univ U) {cfg : Cfg} (hcfg : cfg.lit = 0) {c : Cluste
       have h3 : nval c a k = valOf (localState na) k := by
         unfold nval nstore; rw [ha, localState_eq, valOf_localState]
       rw [h1, h2, h3]
-      exact hsp.2 k
+      exact hsp.2.2 k hkne
     · simp only [Cluster.upd, modifyAt_length]
 
 /-! ## the explicit sync sequence -/
@@ -207,9 +204,9 @@ theorem gather_spec (hU : Univ U) (hT : TombClosed U) {cfg : Cfg} (hcfg : cfg.li
     {c : Cluster Desc} (hinv : Inv U c) (h0 : 0 < c.nodes.length) :
     let c' := runC cfg c (is.map fun i => Event.pushPull i 0)
     Inv U c' ∧ (∀ i, i ≠ 0 → c'.nodes[i]? = c.nodes[i]?) ∧ c'.nodes.length = c.nodes.length ∧ c'.clock = c.clock ∧
-    (∀ k, Eqv (nval c' 0 k) ((is.map fun i => nval c i k).foldl mergeState (nval c 0 k))) := by
+    (∀ k, k ≠ "" → Eqv (nval c' 0 k) ((is.map fun i => nval c i k).foldl mergeState (nval c 0 k))) := by
   induction is generalizing c with
-  | nil => exact ⟨hinv, fun _ _ => rfl, rfl, rfl, fun k => Eqv.refl _⟩
+  | nil => exact ⟨hinv, fun _ _ => rfl, rfl, rfl, fun k _ => Eqv.refl _⟩
   | cons i is ih =>
     have hi : i ≠ 0 := his i (by simp)
     obtain ⟨hoth, hview, hlen, hclk⟩ := pushPull_spec hU hcfg hinv i 0 h0
@@ -217,8 +214,8 @@ theorem gather_spec (hU : Univ U) (hT : TombClosed U) {cfg : Cfg} (hcfg : cfg.li
       inv_step hU hT hcfg hinv _ trivial
     obtain ⟨hI, hO, hL, hC, hV⟩ := ih (fun j hj => his j (by simp [hj])) hinv1 (by rw [hlen]; exact h0)
     simp only [List.map_cons, runC_cons]
-    refine ⟨hI, fun j hj => (hO j hj).trans (hoth j hj), hL.trans hlen, hC.trans hclk, fun k => ?_⟩
-    refine (hV k).trans ?_
+    refine ⟨hI, fun j hj => (hO j hj).trans (hoth j hj), hL.trans hlen, hC.trans hclk, fun k hkne => ?_⟩
+    refine (hV k hkne).trans ?_
     -- nodes other than 0 are unchanged by the first exchange
     have hsame : (is.map fun j => nval (stepC cfg c (.pushPull i 0)) j k) = is.map fun j => nval c j k := by
       apply List.map_congr_left
@@ -232,6 +229,6 @@ theorem gather_spec (hU : Univ U) (hT : TombClosed U) {cfg : Cfg} (hcfg : cfg.li
       exact nval_drawn hinv j k
     have hd1 := nval_drawn hinv1 0 k
     rw [hclk] at hd1
-    exact foldl_merge_congr hU _ hg hd1 (goodVal_merge hU (nval_drawn hinv 0 k) (nval_drawn hinv i k)) (hview k)
+    exact foldl_merge_congr hU _ hg hd1 (goodVal_merge hU (nval_drawn hinv 0 k) (nval_drawn hinv i k)) (hview k hkne)
 
 end PfC06
